@@ -169,6 +169,10 @@ pub enum RandKind {
     MonotoneRuns,
     CancelTail,
     AltDecades,
+    /// magnitudes 1e100..1e150 (products of two values stay finite), any sign
+    Huge,
+    /// magnitudes 1e-150..1e-100
+    Tiny,
 }
 pub const RAND_KINDS: [RandKind; 8] = [
     RandKind::Uniform,
@@ -241,6 +245,14 @@ pub fn rand_stream(kind: RandKind, len: usize, rng: &mut Rng) -> Vec<f64> {
                 } else {
                     v.push(small);
                 }
+            }
+        }
+        RandKind::Huge | RandKind::Tiny => {
+            let (lo, hi) = if kind == RandKind::Huge { (1e100, 1e150) } else { (1e-150, 1e-100) };
+            let s = rng.log_uniform(lo, hi / 1e3);
+            for _ in 0..len {
+                let x = s * rng.log_uniform(1.0, 1e3);
+                v.push(if rng.chance(0.4) { -x } else { x });
             }
         }
         RandKind::AltDecades => {
